@@ -247,6 +247,8 @@ void CONmtSetNodeId(CO_NMT *nmt, uint8_t nodeId)
         nmt->Node->Error = CO_ERR_NMT_MODE;
     } else {
         nmt->Node->NodeId = nodeId;
+        /* the SDO servers use identifiers, which depend on the node-id */
+        COSdoInit(nmt->Node->Sdo, nmt->Node);
     }
 }
 
